@@ -40,9 +40,12 @@ const ALIGNS: [usize; 8] = [2, 4, 8, 16, 32, 64, 128, 256];
 const WLENS: [usize; 14] = [0, 1, 2, 3, 7, 8, 15, 16, 17, 31, 64, 100, 1000, 5000];
 
 fn gen_case(r: &mut Rng) -> Case {
+    gen_case_n(r, 64)
+}
+fn gen_case_n(r: &mut Rng, max_ops: u64) -> Case {
     let align = *r.pick(&ALIGNS);
     let cap = if r.chance(1, 4) { Some(*r.pick(&[0usize, 1, 15, 16, 17, 100, 4096])) } else { None };
-    let nops = r.range(1, 64) as usize;
+    let nops = r.range(1, max_ops) as usize;
     // swarm: each run enables a random subset of the alphabet (writes always possible)
     let mask = r.next() | 1;
     let past_end_bias = r.chance(1, 2);
@@ -327,7 +330,12 @@ const PER_UNIT: u64 = 256;
 
 pub fn case_for(seed: u64, unit: u64, sub: u64) -> Case {
     let mut r = Rng::new(mix(seed, ID, unit, sub));
-    gen_case(&mut r)
+    // one history in sixteen is long (up to 400 operations)
+    if sub % 16 == 15 {
+        gen_case_n(&mut r, 400)
+    } else {
+        gen_case(&mut r)
+    }
 }
 
 pub fn run_unit(ctx: &mut Ctx, unit: u64) {
